@@ -620,6 +620,12 @@ func (cfg SchemaCfg) genStruct(r *Rand, depth int, ctx genCtx, srepr string) *ST
 		}
 		return t
 	}
+	medium := false
+	if srepr == "map" && r.Chance(1, 14) {
+		// a struct of 9-14 fields (beyond any small-struct fast path) whose renames form a chain or a swap: a field renamed
+		// onto the NAME of a sibling that is itself renamed away
+		n, medium = 9+r.Intn(6), true
+	}
 	names := pickDistinct(r, fieldNames, n)
 	used := map[string]bool{}
 	loose := r.Chance(cfg.TupleLooseOptional, 100)
@@ -644,6 +650,15 @@ func (cfg SchemaCfg) genStruct(r *Rand, depth int, ctx genCtx, srepr string) *ST
 			}
 		}
 		t.Fields = append(t.Fields, f)
+	}
+	if medium {
+		k := r.Intn(n - 2)
+		if r.Bool() {
+			t.Fields[k].Rename, t.Fields[k+1].Rename, t.Fields[k+2].Rename = t.Fields[k+1].Name, t.Fields[k+2].Name, t.Fields[k+2].Name+"_r"
+		} else {
+			t.Fields[k].Rename, t.Fields[k+1].Rename = t.Fields[k+1].Name, t.Fields[k].Name
+		}
+		return t
 	}
 	if srepr == "map" && n > 0 && r.Chance(1, 2) {
 		// renames: distinct representation keys; a rename may be another field's NAME when that field is renamed too
